@@ -486,3 +486,174 @@ def run_c20(case):
     meta["iq"] = (d0q, d1q, sorted(insideq))
     meta["ids"] = kb.all_ids()
     return {"lines": lines, "impl": out, "meta": meta}
+
+
+# ------------------------------------------------------------------ C08: every sub-formula object is a full member
+
+def run_c08(case):
+    """case: {'kb', 'before': [(id,lo,hi)], 'after': [(id,lo,hi)], 'root_groups': [[ids]...]}"""
+    import impl
+    L = impl.lnn()
+    impl.take_log()
+    kb = impl.PropKB(case["kb"])
+    problems = []
+    # data attached before the formulae are added (directly on the objects)
+    for i, lo, hi in case["before"]:
+        kb.obj[i].add_data((float(lo), float(hi)))
+    try:
+        for grp in case["root_groups"]:
+            kb.model.add_knowledge(*[kb.obj[r] for r in grp])
+        for i, lo, hi in case["after"]:
+            kb.model.add_data({kb.obj[i]: (float(lo), float(hi))})
+    except Exception as e:
+        problems.append({"problem": "add_knowledge / add_data raised", "error": f"{type(e).__name__}: {e}"})
+    lines = kb.header_lines()
+    out = ["ok"] * len(lines)
+    data = {}
+    for i, lo, hi in list(case["before"]) + list(case["after"]):
+        data[i] = (lo, hi)
+    for i, (lo, hi) in data.items():
+        lines.append(f"set {i} {q(lo)} {q(hi)}")
+        out.append("ok")
+    # ---- registry
+    objs = [kb.obj[i] for i in kb.order]
+    nodes = kb.model.nodes
+    numbers = [o.formula_number for o in objs]
+    for i, o in zip(kb.order, objs):
+        if o.formula_number is None:
+            problems.append({"problem": "sub-formula object has no formula number", "object": i})
+        elif nodes.get(o.formula_number) is not o:
+            other = nodes.get(o.formula_number)
+            problems.append({"problem": "Model.nodes does not hold this object under its own number", "object": i,
+                             "number": o.formula_number, "holds": None if other is None else kb.idof.get(id(other), "foreign")})
+        if o not in kb.model.graph:
+            problems.append({"problem": "object is not a node of the model graph", "object": i})
+    if len(set(numbers)) != len(numbers):
+        problems.append({"problem": "two objects share a formula number", "numbers": numbers})
+    if len(nodes) != len(objs):
+        problems.append({"problem": "Model.nodes has a different number of entries than there are sub-formula objects",
+                         "nodes": len(nodes), "objects": len(objs)})
+    # ---- parameter collection
+    params = kb.model.parameters()
+    for i, o in zip(kb.order, objs):
+        for p in o.neuron.parameters():
+            if not any(p is x for x in params):
+                problems.append({"problem": "Model.parameters() misses a parameter of this object", "object": i})
+                break
+    # ---- model-wide operations
+    ids = lambda l: ",".join(map(str, l)) if l else "-"
+
+    def snap():
+        lines.append(kb.dump_line())
+        out.append(kb.dump())
+
+    snap()
+    try:
+        impl.take_log()
+        steps, r = kb.model.upward()
+        log = impl.take_log()
+        sched = kb.calls(log, "upward")
+        reached = set(sched)
+        for i, o in zip(kb.order, objs):
+            if type(o).__name__ != "Proposition" and i not in reached:
+                problems.append({"problem": "Model.upward() did not call this object", "object": i})
+        lines.append(f"pass up {ids(sched)}"); out.append("r " + q(impl.amount(r)))
+        snap()
+        impl.take_log()
+        steps, r = kb.model.downward()
+        sched = kb.calls(impl.take_log(), "downward")
+        for i, o in zip(kb.order, objs):
+            if type(o).__name__ != "Proposition" and i not in set(sched):
+                problems.append({"problem": "Model.downward() did not call this object", "object": i})
+        lines.append(f"pass down {ids(sched)}"); out.append("r " + q(impl.amount(r)))
+        snap()
+        steps, r = kb.model.infer(max_steps=100)
+        log = impl.take_log()
+        ups, downs = kb.calls(log, "upward"), kb.calls(log, "downward")
+        per_u, per_d = len(ups) // max(steps, 1), len(downs) // max(steps, 1)
+        lines.append(f"infer {EPS} 100 - 0 {ids(ups[:per_u])} {ids(downs[:per_d])}"); out.append(f"n {steps} {q(impl.amount(r))}")
+        snap()
+        kb.model.reset_bounds()
+        lines.append("resetb"); out.append("ok")
+        snap()
+        kb.model.flush()
+        for i in kb.order:
+            lines.append(f"set {i} 0 1"); out.append("ok")
+        snap()
+        for i, o in zip(kb.order, objs):
+            if impl.bounds_of(o) != (ZERO, ONE):
+                problems.append({"problem": "Model.flush() did not reach this object", "object": i})
+    except Exception as e:
+        problems.append({"problem": "a model-wide operation raised after data was attached", "error": f"{type(e).__name__}: {str(e)[:300]}"})
+    return {"lines": lines, "impl": out, "meta": {"problems": problems, "ids": kb.all_ids(), "n_objects": len(objs)}}
+
+
+def gen_c08_case(rng):
+    kb = gen_kb(rng, n_atoms=(2, 4), n_conn=(2, 5), alphas=False, atom_alpha=False)
+    nodes = kb["nodes"]
+    nid = max(n["id"] for n in nodes) + 1
+    conn = [n for n in nodes if n["kind"] not in ("atom",)]
+    dup_pairs = 0
+    for _ in range(rng.randint(1, 3)):
+        src = rng.choice(conn)
+        dup = dict(src)
+        dup["id"] = nid
+        if "ops" in dup:
+            dup["ops"] = list(dup["ops"])
+        nodes.append(dup)
+        parents = [n for n in nodes if n["kind"] != "atom" and src["id"] in n.get("ops", []) and n["id"] != nid]
+        r = rng.random()
+        if parents and r < 0.4:
+            p = rng.choice(parents)
+            k = p["ops"].index(src["id"])
+            p["ops"] = list(p["ops"])
+            p["ops"][k] = nid                       # one use of the original now uses the structurally equal copy
+            if src["id"] not in {j for n in nodes for j in n.get("ops", [])}:
+                kb["roots"].append(src["id"])
+        elif r < 0.75:
+            nodes.append({"id": nid + 1, "kind": "not", "ops": [nid]})
+            nodes.append({"id": nid + 2, "kind": "or", "ops": [src["id"], nid + 1]})
+            if src["id"] in kb["roots"]:
+                kb["roots"].remove(src["id"])
+            kb["roots"].append(nid + 2)
+            nid += 2
+        else:
+            kb["roots"].append(nid)
+        nid += 1
+        dup_pairs += 1
+    # a user-written implication that is structurally equal to the one an Iff generates
+    for n in list(nodes):
+        if n["kind"] == "iff" and rng.random() < 0.7:
+            nodes.append({"id": nid, "kind": "implies", "ops": list(n["ops"]),
+                          **({"act": n["act"]} if "act" in n else {})})
+            kb["roots"].append(nid)
+            nid += 1
+            dup_pairs += 1
+    kb["nodes"] = sorted(nodes, key=lambda n: n["id"])
+    # operands must be created before their users: re-sort topologically by id dependencies
+    done, order = set(), []
+    pending = list(kb["nodes"])
+    while pending:
+        for n in list(pending):
+            if all(j in done for j in n.get("ops", [])):
+                order.append(n)
+                done.add(n["id"])
+                pending.remove(n)
+    kb["nodes"] = order
+    ids_all = [n["id"] for n in order]
+    before, after = [], []
+    for i in ids_all:
+        if rng.random() < 0.45:
+            lo, hi = grid_bounds_any(rng)
+            (before if rng.random() < 0.4 else after).append((i, lo, hi))
+    roots = list(dict.fromkeys(kb["roots"]))
+    rng.shuffle(roots)
+    if rng.random() < 0.5 and len(roots) > 1:
+        k = rng.randint(1, len(roots) - 1)
+        groups = [roots[:k], roots[k:]]
+    else:
+        groups = [roots]
+    if rng.random() < 0.3:
+        groups.append([rng.choice(roots)])         # a root added a second time
+    kb["roots"] = roots
+    return {"kb": kb, "before": before, "after": after, "root_groups": groups, "dup_pairs": dup_pairs}
